@@ -10,6 +10,7 @@
      base   (server processes only) frames a stream already had when the process started
      rec    an emitter buffered a frame             -> System!Recorded
      pub    an emitter published a frame            -> System!Published
+     snap   a stream's snapshot file was written with n frames -> System!Snapshot
      xb/xe  a workspace-mutating execution begins / ends (tool call that needs the permit, task process) -> System!XBegin / XEnd
 
    The trace alone decides which action fires; every guard of System that is false in the state
@@ -37,7 +38,8 @@ TRec == Ev("rec") /\ Recorded(Rec[l].s, Rec[l].q, l) /\ UNCHANGED dvars
 TPub == Ev("pub") /\ Published(Rec[l].s, Rec[l].q, l) /\ UNCHANGED dvars
 TXb == Ev("xb") /\ XBegin(Rec[l].id, l) /\ UNCHANGED dvars
 TXe == Ev("xe") /\ XEnd(Rec[l].id, l) /\ UNCHANGED dvars
-TNext == TXb \/ TXe \/ TReset \/ TBase \/ TFrame \/ TCache \/ TRec \/ TPub
+TSnap == Ev("snap") /\ Snapshot(Rec[l].s, Rec[l].n, l) /\ UNCHANGED dvars
+TNext == TSnap \/ TXb \/ TXe \/ TReset \/ TBase \/ TFrame \/ TCache \/ TRec \/ TPub
 TSpec == TInit /\ [][TNext]_tvars
 Report == IF l = Len(Rec) + 1 THEN PrintT(<<"BAD", ToJson(bad)>>) ELSE TRUE
 Accepted == LET d == TLCGet("stats").diameter IN
